@@ -526,6 +526,8 @@ fn close(&mut self) {
     }
 
 fn write_boolean(&mut self, value: bool) {
+proof {  assert(old(self).writer.out().push(if value { 0x1Fu8 } else { 0x10u8 }) == old(self).writer.out() + enc_bool(value)); }
+
         if self.ok {
             
             let r = self.writer.write_u8(if value {
@@ -533,20 +535,18 @@ fn write_boolean(&mut self, value: bool) {
             } else {
                 FSM_PROTOCOL_TYPE_BOOLEAN_FALSE
             });
-            
-proof {  assert(old(self).writer.out().push(if value { 0x1Fu8 } else { 0x10u8 }) == old(self).writer.out() + enc_bool(value)); }
-self.eval_result(r);
+            self.eval_result(r);
         }
     }
 
 fn write_option_string(&mut self, value: &Option<String>) {
+proof {  assert(old(self).writer.out().push(0x10u8) == old(self).writer.out() + seq![0x10u8]); }
+
         if value.is_some() {
             self.write_str(value.as_ref().unwrap().as_str());
         } else if self.ok {
             let r = self.writer.write_u8(FSM_PROTOCOL_TYPE_OPT_STRING_NONE);
-            
-proof {  assert(old(self).writer.out().push(0x10u8) == old(self).writer.out() + seq![0x10u8]); }
-self.eval_result(r);
+            self.eval_result(r);
         }
     }
 
